@@ -587,9 +587,10 @@ def _bind_range(ctx: Ctx, env: _Env, programs: List[Dict[str, Any]], quick: bool
                 continue
             if p["reader"] == "raw-local":
                 raise MachineryError(f"the reference semantics of RangeReader.tla disagrees with a real local file: {p} in program {pr}")
+            detail = (f"issued {p['got']!r}; allowed: {p['expected']}" if p["why"] in ("request-out-of-range", "needless-request")
+                      else f"-> {p['got']!r}, a local file gives {p['expected']!r}")
             ctx.violation(f"range:{p['reader']}:{p['op']['op']}:{p['why']}",
-                          f"{p['reader']} reader over a {size}-byte object, program {[s['o'] for s in pr['prog']]}: step {p['step']} {p['op']} -> {p['got']!r}, "
-                          f"a local file gives {p['expected']!r}",
+                          f"{p['reader']} reader over a {size}-byte object, program {[s['o'] for s in pr['prog']]}: step {p['step']} {p['op']} {detail}",
                           {"mode": "range", "size": size, "prog": pr["prog"], "problem": p})
         del last
     ctx.cov["range_programs_replayed"] = len(programs)
